@@ -264,7 +264,10 @@ def check_linear(ctx, rule, body, local, allowed, what="entry", key_extra="", ca
                 "the %s can be dropped without being handed on (Drop at bb%d while it still holds the value)" % (what, bb), path=path)
     for bb, (t, i) in lin.consumers.items():
         cs = CallSite(body, bb, t)
-        if not allowed(cs, i):
+        permitted = allowed(cs, i)       # (evaluated once: the predicates of some rules record what they accept)
+        if not permitted and _scoped_continuation(ctx, rule, body, cs, i, allowed, what, key_extra, carriers):
+            continue
+        if not permitted:
             ok = False
             ctx.bad(rule, key + "-consumed-by-" + (cs.name or "?"), loc(body, bb),
                     "the %s is moved into `%s`, which is not one of the permitted destinations" % (what, cs.def_ or "fn pointer"))
@@ -283,6 +286,62 @@ def check_linear(ctx, rule, body, local, allowed, what="entry", key_extra="", ca
     if ok:
         ctx.ok(rule, key, loc(body), "consumers: %s" % sorted({CallSite(body, bb, t).name for bb, (t, i) in lin.consumers.items()}))
     return lin
+
+
+def _scoped_continuation(ctx, rule, body, cs, i, allowed, what, key_extra, carriers, _depth=[0]):
+    """the value was moved into a closure that is handed to a private `with_x(|..| ..)` helper which runs the closure exactly once on every
+    path (typically under a lock it takes): the linear-use obligation continues inside the closure for the captured value"""
+    F = getattr(ctx, "_scoped_F", None) or ctx.facts("dbg")
+    if _depth[0] > 2 or i >= len(cs.args):
+        return False
+    cl = closure_for_operand(F, body, cs.args[i])
+    if cl is None:
+        return False
+    helpers = [hb for hb in local_callee_bodies(F, cs) if hb.kind != "Closure"]
+    if not helpers:
+        return False
+    for hb in helpers:
+        # parameter i+1 of the helper is invoked exactly once on every path, and goes nowhere else
+        inv = []
+        for c in hb.calls():
+            if ("callee_op" in c.term or (c.name in ("call_once", "call_mut", "call") and "ops::function" in c.def_)):
+                src = (Prov(hb).operand(c.args[0]) if c.args else set()) if "callee_op" not in c.term else Prov(hb).operand(c.term["callee_op"])
+                if any(x[0] == "arg" and x[1] == i + 1 for x in src):
+                    inv.append(c.bb)
+        ok, why = exactly_once(hb, inv)
+        if not ok:
+            return False
+    # the captured value inside the closure: locals that receive a by-value upvar of the closure environment
+    roots = []
+    for bi in cl.live_blocks():
+        for st in cl.stmts(bi):
+            if st["k"] == "assign" and not st["lhs"].get("p") and st["rv"]["k"] == "use" and "move" in st["rv"]["op"]:
+                src = st["rv"]["op"]["move"]
+                if src["l"] == 1 and [e[0] for e in src.get("p", [])] in (["f"], ["deref", "f"]):
+                    roots.append(st["lhs"]["l"])
+    # (an upvar used directly as a call argument: `inner.merge(move (_1.0))`)
+    direct = []
+    for c in cl.calls():
+        for ai, a in enumerate(c.args):
+            if "move" in a and a["move"]["l"] == 1 and [e[0] for e in a["move"].get("p", [])] in (["f"], ["deref", "f"]):
+                direct.append((c, ai))
+    if not roots and not direct:
+        return False
+    _depth[0] += 1
+    try:
+        good = True
+        for r in roots:
+            good = check_linear(ctx, rule, cl, r, allowed, what=what, key_extra=key_extra + "@closure", carriers=carriers) is not None and good
+        for c, ai in direct:
+            if not allowed(c, ai):
+                ctx.bad(rule, fnkey(cl) + "#" + what + key_extra + "-consumed-by-" + (c.name or "?"), loc(cl, c.bb),
+                        "the %s captured by the closure is moved into `%s`, which is not one of the permitted destinations" % (what, c.def_ or "fn pointer"))
+                good = False
+            elif cl.bb_in_loop(c.bb) if hasattr(cl, "bb_in_loop") else (c.bb in cl.reachable_after(c.bb)):
+                good = False
+        return good
+    finally:
+        _depth[0] -= 1
 
 
 def pkey_(place):
